@@ -25,25 +25,31 @@ def output (ops : List Op) : Bytes := ops.flatMap opBytes
 
 /-- bytes of one character when there is room: the conversion of the character, or of a space when
     the character is not representable (or comes out as '@', the heuristic of print_unicode) -/
-def encUnbounded (conv : Nat → Option Bytes) (c : Cell) : Option Bytes :=
+def encUnbounded (cfg : Cfg) (conv : Nat → Option Bytes) (c : Cell) : Option Bytes :=
   let u := effUnicode c
   match conv u with
-  | some bs => if atSign bs u then conv 0x20 else some bs
+  | some bs => if atSign cfg bs u then conv 0x20 else some bs
   | none => conv 0x20
 
-def rowText (conv : Nat → Option Bytes) : List Cell → Option Bytes
+/-- side condition of exactness once E2BIG is an error (F27a repaired): an encoding that is taken for '@'
+    (and replaced by a space) is not longer than the space.  True for all fixed-width encodings and UTF-8;
+    trivially true for the unrepaired code. -/
+def AtFits (cfg : Cfg) (conv : Nat → Option Bytes) : Prop :=
+  cfg.printE2big = true → ∀ u bs sp, conv u = some bs → atSign cfg bs u = true → conv 0x20 = some sp → bs.length ≤ sp.length
+
+def rowText (cfg : Cfg) (conv : Nat → Option Bytes) : List Cell → Option Bytes
   | [] => some []
   | c :: cs =>
-    match encUnbounded conv c, rowText conv cs with
+    match encUnbounded cfg conv c, rowText cfg conv cs with
     | some a, some b => some (a ++ b)
     | _, _ => none
 
 /-- table mode text of a list of rows: the characters of each row, rows separated by one '\n' -/
-def tableText (conv : Nat → Option Bytes) : List (List Cell) → Option Bytes
+def tableText (cfg : Cfg) (conv : Nat → Option Bytes) : List (List Cell) → Option Bytes
   | [] => some []
-  | [r] => rowText conv r
+  | [r] => rowText cfg conv r
   | r :: rs =>
-    match rowText conv r, tableText conv rs with
+    match rowText cfg conv r, tableText cfg conv rs with
     | some a, some b => some (a ++ [0x0A] ++ b)
     | _, _ => none
 
@@ -88,10 +94,11 @@ def region_equals_full_stmt (cfg : Cfg) : Prop :=
     ∀ line b, line < h * 10 → b < w * 12 * ct →
       finalAt rr (line * S + b) = finalAt fr ((row * 10 + line) * (pg.columns * 12 * ct) + col * 12 * ct + b)
 
-/-- vbi_print_page_region with a buffer that is too small must fail (documented); FALSE, see
-    `print_region_small_buffer_counterexample` -/
-def print_region_exact_small_buffer_stmt : Prop :=
-  ∀ (conv : Nat → Option Bytes) (size : Nat) (rows : List (List Cell)) (out expected : Bytes),
-    printRows conv size rows [] = .ok (some out) → tableText conv rows = some expected → out = expected
+/-- whatever vbi_print_page_region returns as success is the table text of the region; in particular a
+    buffer that is too small makes it fail (documented).  FALSE without the F27a repair
+    (`print_region_small_buffer_counterexample`), proved with it (`print_region_exact_repaired`) -/
+def print_region_exact_small_buffer_stmt (cfg : Cfg) : Prop :=
+  ∀ (conv : Nat → Option Bytes) (size : Nat) (rows : List (List Cell)) (out : Bytes),
+    printRows cfg conv size rows [] = .ok (some out) → tableText cfg conv rows = some out
 
 end Zvbi.Export.Spec
